@@ -24,16 +24,15 @@ Qed.
 Lemma field_wf_checks isReq f :
   field_wf isReq f ->
   lower_ok (fname f) = true /\ value_ok (fvalue f) = true /\
-  (is_pseudo (fname f) = true -> exists sl, fname f = slot_name sl /\ slot_is_response sl = negb isReq) /\
+  (is_pseudo (fname f) = true -> fvalue f <> [] /\ exists sl, fname f = slot_name sl /\ slot_is_response sl = negb isReq) /\
   (is_pseudo (fname f) = false -> validate_regular f = None).
 Proof.
   intros (Hu & Hv & Hp & Hr).
   assert (Hval : value_ok (fvalue f) = true) by (apply value_ok_spec; auto).
   destruct (is_pseudo (fname f)) eqn:E.
-  - apply is_pseudo_spec in E. apply Hp, allowed_slot in E as (sl & Hn & Hk).
-    repeat split; auto; try discriminate.
-    + rewrite Hn. apply slot_name_lower.
-    + intros _. eauto.
+  - apply is_pseudo_spec in E. apply Hp in E as [E Hne]. apply allowed_slot in E as (sl & Hn & Hk).
+    split; [rewrite Hn; apply slot_name_lower|]. split; auto. split; [|discriminate].
+    intros _. split; eauto.
   - apply is_pseudo_false_spec in E. destruct (Hr E) as (Ht & Hc & Hte).
     repeat split; auto; try discriminate.
     + apply token_lower; auto.
@@ -69,7 +68,7 @@ Proof.
               (forall g sl, In g r -> fname g = slot_name sl -> get_flag sl (pSeen st1) = false) /\
               (pReadCL st1 = true -> forall g, In g r -> is_cl g -> fvalue g = pCL st1)).
     { destruct (is_pseudo (fname f)) eqn:Ep.
-      - destruct (Hps eq_refl) as (sl & Hn & Hk).
+      - destruct (Hps eq_refl) as (Hvne & sl & Hn & Hk).
         assert (Hnr : pRegular st = false).
         { destruct (pRegular st) eqn:Er; auto. specialize (Hreg eq_refl). inversion Hreg; subst. congruence. }
         eexists. split; [eapply StepPseudo; eauto; apply (Hslots f sl); [left; auto|auto]|].
@@ -188,4 +187,85 @@ Proof.
   intros Hin Hb Hl. destruct (nonascii_name_never_valid _ _ Hin Hb) as (H1 & _ & _).
   unfold pstep. replace (pLimit st - fsize f <? 0) with false by (symmetry; apply Z.ltb_ge; auto).
   rewrite H1. simpl. eauto.
+Qed.
+
+(** * Trailer completeness: every well-formed trailer section is accepted *)
+
+(** canonicalisation followed by lower-casing gives back a name without upper-case letters *)
+Lemma lower_canon_go n : forall u,
+  Forall (fun b => ~ (65 <= b <= 90)) n -> lower_bytes (canon_go u n) = n.
+Proof.
+  induction n as [|c r IH]; intros u H; simpl; auto.
+  inversion H as [|? ? Hc Hr]; subst.
+  assert (Huc : is_uc c = false) by (unfold is_uc; apply andb_false_iff; lia).
+  rewrite Huc. rewrite andb_false_r.
+  f_equal; [|apply IH; auto].
+  unfold lower_byte. destruct (u && is_lc c) eqn:E.
+  - apply andb_true_iff in E as [_ E]. unfold is_lc in E. apply andb_true_iff in E as [E1 E2].
+    apply Z.leb_le in E1, E2. replace (is_uc (c - 32)) with true; [lia|].
+    symmetry. unfold is_uc. apply andb_true_iff. split; apply Z.leb_le; lia.
+  - rewrite Huc. reflexivity.
+Qed.
+
+Lemma forbidden_is_lower_bad : forbidden_trailer = map lower_bytes bad_trailer.
+Proof. vm_compute. reflexivity. Qed.
+
+Lemma valid_trailer_complete n :
+  rfc_token n -> no_uppercase n -> ~ In n forbidden_trailer -> (forall r, n <> bs "if-" ++ r) ->
+  valid_trailer n = true.
+Proof.
+  intros [Hne Ht] Hu Hnf Hnif.
+  assert (Hnu : Forall (fun b => ~ (65 <= b <= 90)) n).
+  { unfold no_uppercase in Hu. rewrite Forall_forall in *. intros b Hb. apply Hu; auto. }
+  assert (Hall : forallb is_tchar n = true).
+  { apply forallb_forall. intros b Hb. rewrite Forall_forall in Ht. specialize (Ht b Hb).
+    apply token_table_is_tchar. pose proof (rfc_tchar_range _ Ht).
+    rewrite token_table_rfc by lia. apply rfc_tchar_b_spec; auto. }
+  unfold valid_trailer, canon. rewrite Hall. apply andb_true_iff. split; apply negb_true_iff.
+  - destruct (has_prefix_if (canon_go true n)) eqn:E; auto. exfalso.
+    pose proof (lower_canon_go n true Hnu) as Hl.
+    destruct (canon_go true n) as [|a [|b [|c r]]] eqn:Ec; try discriminate.
+    unfold has_prefix_if in E. apply andb_true_iff in E as [E E3]. apply andb_true_iff in E as [E1 E2].
+    apply Z.eqb_eq in E1, E2, E3. subst a b c.
+    simpl in Hl. apply (Hnif (lower_bytes r)). rewrite <- Hl. reflexivity.
+  - destruct (mem (canon_go true n) bad_trailer) eqn:E; auto. exfalso. apply mem_true in E.
+    apply Hnf. rewrite forbidden_is_lower_bad. rewrite <- (lower_canon_go n true Hnu).
+    apply in_map. exact E.
+Qed.
+
+Lemma tloop_complete : forall fs st,
+  Forall trailer_field_wf fs -> section_size fs <= fst st ->
+  exists st', tloop st fs false = inr st'.
+Proof.
+  induction fs as [|f r IH]; intros st Hw Hsz; simpl; [eauto|].
+  inversion Hw as [|? ? Hf Hr]; subst.
+  destruct Hf as (Hu & Hv & Hnp & Ht & Hc & Hnf & Hnif).
+  simpl in Hsz. pose proof (section_size_nonneg r) as Hnn.
+  assert (Hs : tstep st f = inr (fst st - fsize f, hadd (canon (fname f)) (fvalue f) (snd st))).
+  { apply tstep_inv. split; [rewrite fsize_32; lia|].
+    split; [apply token_lower; auto|]. split; [apply value_ok_spec; auto|].
+    split; [apply is_pseudo_false_spec; auto|].
+    split; [|split; [apply valid_trailer_complete; auto|reflexivity]].
+    apply validate_regular_spec. split; [apply token_ok_spec; auto|].
+    split; [apply mem_false_intro; rewrite conn_specific_rfc; auto|].
+    intros Hte. exfalso. apply Hnf. rewrite Hte. vm_compute. auto 30. }
+  rewrite Hs. apply IH; auto. simpl. rewrite fsize_32. lia.
+Qed.
+
+Theorem parseTrailers_complete lim fs :
+  WFtrailer lim fs -> parseTrailers lim fs false = inr (trailers_of fs).
+Proof.
+  intros [Hw Hsz].
+  assert (Hlim : 0 <= lim) by (pose proof (section_size_nonneg fs); lia).
+  destruct (tloop_complete fs (lim, []) Hw Hsz) as [st Hl].
+  assert (Hok : parseTrailers lim fs false = inr (snd st)) by (unfold parseTrailers; rewrite Hl; reflexivity).
+  pose proof (parseTrailers_sound _ _ _ _ Hlim Hok) as (_ & _ & E). rewrite <- E. exact Hok.
+Qed.
+
+Theorem parseTrailers_iff lim fs :
+  0 <= lim -> ((exists m, parseTrailers lim fs false = inr m) <-> WFtrailer lim fs).
+Proof.
+  intros Hlim. split.
+  - intros [m H]. apply parseTrailers_sound in H as (_ & Hw & _); auto.
+  - intros Hw. eexists. apply parseTrailers_complete; auto.
 Qed.
